@@ -1,7 +1,7 @@
 PART = {
   "C17": dict(
     imports=["Carquet.Properties.C17.Schema"],
-    obligations=[],
+    obligations=["Carquet.Properties.C17."+t for t in ["C17_traverse_eq_spec","C17_column_count","C17_accessors","C17_find_by_name","C17_builder_flat","C17_builder_capacity","C17_traversal_linear"]],
     components=["schema"],
     fidelity={"Impl.Schema.traverse": "exact", "Impl.Schema.Builder": "exact (flat shapes; allocation failure left to C19)"},
     rule="schema: random well-formed trees (depth<=6, <=40 elements, all repetition labelings incl. absent) through "
